@@ -70,6 +70,63 @@ def equivalent(s1, s2, ignp, ignk):
     return norm(s1) == norm(s2)
 
 
+class _Circle:
+    def area(self, r):
+        return ('circle', 3 * r * r)
+
+
+class _Square:
+    def area(self, r):
+        return ('square', r * r)
+
+
+def _factory(tagv):
+    def compute(x):
+        return (tagv, x)
+    return compute
+
+
+def name_probe():
+    """memoized functions never share entries: decorators used without `name=` derive the key prefix
+    from the function — two different functions with the same simple name (methods of two classes,
+    closures from two factories calls aside) must not answer for one another"""
+    import diskcache
+    from diskcache.core import full_name
+    bad = []
+    for fn in (_Circle.area, _Square.area, _factory, name_probe):
+        want = fn.__module__ + '.' + fn.__qualname__
+        if full_name(fn) != want:
+            bad.append('full_name(%s) is %r, the qualified name is %r' % (fn.__qualname__, full_name(fn), want))
+    root = os.environ.get('VERIF_SCRATCH') or tempfile.gettempdir()
+    d = tempfile.mkdtemp(prefix='memoname-', dir=root)
+    try:
+        for kind in ('cache', 'fanout', 'index', 'stampede'):
+            dd = os.path.join(d, kind)
+            if kind == 'cache':
+                c = diskcache.Cache(dd)
+                deco = lambda f, c=c: c.memoize()(f)
+            elif kind == 'fanout':
+                c = diskcache.FanoutCache(dd, shards=2)
+                deco = lambda f, c=c: c.memoize()(f)
+            elif kind == 'index':
+                c = diskcache.Index(dd)
+                deco = lambda f, c=c: c.memoize()(f)
+            else:
+                c = diskcache.Cache(dd)
+                deco = lambda f, c=c: diskcache.memoize_stampede(c, 100)(f)
+            f1, f2 = deco(_Circle.area), deco(_Square.area)
+            a, b = f1(None, 2), f2(None, 2)
+            if a != ('circle', 12) or b != ('square', 4):
+                bad.append('%s.memoize without name=: Circle.area(2) -> %r, Square.area(2) -> %r: two functions share one entry' % (kind, a, b))
+            try:
+                c.close()
+            except Exception:
+                pass
+    finally:
+        shutil.rmtree(d, ignore_errors=True)
+    return bad
+
+
 def run(tier, seed, rng, known, replay):
     from diskcache.core import args_to_key
     import diskcache
@@ -210,10 +267,12 @@ def run(tier, seed, rng, known, replay):
                 violations.append({'replay': {'property': 'C16', 'kind': 'correspondence', 'line': l, 'impl': e, 'model': g, 'meta': repr(meta),
                                               'model_part': 'DC.Memo.call'}, 'found_input': False,
                                    'what': 'memoize wrapper differs from the model at %s: impl %s model %s (%r)' % (l[:90], e, g, meta)})
+    for v in name_probe()[:2]:
+        violations.append({'replay': {'property': 'C16', 'kind': 'name-probe', 'acceptor': v}, 'found_input': True, 'what': v})
     return {
         'evaluations': len(cases) + len(wlines), 'distinct_nontrivial': len(set(expect)) + len(set(wexpect)),
         'rule': 'args_to_key on every call signature with <=2 positional and <=2 keyword arguments over {None,1,1.0,"a","b",True} (names a,b) x typed x 4 ignore sets, '
-                'exhaustive; plus seeded call sequences through the five real decorators with a counting function; distinct = distinct keys / outcomes',
+                'exhaustive; plus seeded call sequences through the five real decorators with a counting function; plus functions with the same simple name memoized without name= (derived key prefix = module + qualified name); distinct = distinct keys / outcomes',
         'samples': [[lines[5], expect[5]], [lines[-1], expect[-1]], wlines[1:4]],
         'traces': len(cases) + len(wlines), 'exhaustive': True,
         'dist': {'signatures': len(sigs), 'key_cases': len(cases), 'key_divergent': n_div, 'key_collisions': collisions,
